@@ -102,9 +102,24 @@ def check(ctx):
     st = mod.toplevel_assign("strategies")
     ok = ok and isinstance(st, ast.Dict) and {const(k): unparse(v) for k, v in zip(st.keys, st.values)} == {"top_level": "_top_level", "bottom_up": "_bottom_up"}
     ctx.ob("MPT.strategies", tl, "strategy table: top_level -> _top_level, bottom_up -> _bottom_up", ok)
+    # ---------------- backtracking flag of _match: after a backtrack the constant edge of the restored node was
+    # already explored; it must be skipped exactly until a VAR edge is taken
+    mt = mod.func("_match")
+    sets_t = find("restore_state_flag = True", mt)
+    sets_f = [n for n, _ in find("restore_state_flag = False", mt) if enclosing_loops(n)]
+    pop = find("(S, N, matches) = stack.pop()", mt) or find("S, N, matches = stack.pop()", mt)
+    ok = len(sets_t) == 1 and len(pop) == 1 and dominates(mt, pop[0][0], sets_t[0][0]) and getattr(pop[0][0], '_parent', None) is getattr(sets_t[0][0], '_parent', 0)
+    ctx.ob("TYPESTATE.backtrack.set", mt, "restore_state_flag = True exactly when a saved state is popped", ok)
+    var_take = find("matches = matches + (S.term,)", mt)
+    ok = len(sets_f) == 1 and len(var_take) == 1 and control_equivalent(mt, sets_f[0], var_take[0][0]) and any(unparse(n_.test) == "n" and sets_f[0] in n_.body and "N.edges.get(VAR, None)" in unparse(mt) for n_ in walk_no_nested(mt) if isinstance(n_, ast.If))
+    ctx.ob("TYPESTATE.backtrack.reset", mt, "the flag is cleared when (and only when) a VAR edge is taken", ok, "" if ok else "the flag is cleared elsewhere: after one backtrack constant edges keep being skipped (or are retried), so overlapping rules are missed")
+    const_take = [n_ for n_ in ast.walk(mt) if isinstance(n_, ast.If) and unparse(n_.test) == "n and (not restore_state_flag)"]
+    ok = len(const_take) == 1 and bool(find("stack.append((S.copy(), N, matches))", const_take[0])) and not find("restore_state_flag = M_v", const_take[0])
+    ctx.ob("TYPESTATE.backtrack.guard", mt, "a constant edge is taken only when not restoring; the state is saved first; the flag is untouched there", ok)
 
 
 VARIANTS = [
+    (RW, "                stack.append((S.copy(), N, matches))\n                N = n", "                stack.append((S.copy(), N, matches))\n                restore_state_flag = False\n                N = n", "TYPESTATE.backtrack"),
     (RW, "        if v in subs and subs[v] != s:\n            return None\n        else:\n            subs[v] = s", "        subs[v] = s", "DOM.bind-after-compare"),
     (RW, "                if subs is not None:\n                    yield rule, subs", "                yield rule, subs", "DOM.yield-valid-only"),
     (RW, "            term = rule.subs(sd)\n            break\n        return term", "            term = rule.subs(sd)\n        return term", "MPT.top-level"),
